@@ -243,7 +243,14 @@ class GarbageCollector:
         protection of an in-commit manifest whose marker was unreadable.
         """
         stem = basename[: -len(".inflight")]
-        fallback = {f"data/{stem}", f"{self.file_manager.manifests_path}/{stem}"}
+        if "%2F" in stem:
+            # Marker of a file in a sub-directory: named after the whole
+            # (percent-encoded) table-relative path.
+            from urllib.parse import unquote
+
+            fallback = {self._normalize_path(unquote(stem))}
+        else:
+            fallback = {f"data/{stem}", f"{self.file_manager.manifests_path}/{stem}"}
         try:
             payload = json.loads(self.storage.read_file(marker_path).decode("utf-8"))
             target = payload.get("file_path")
